@@ -12,6 +12,38 @@ Import ListNotations.
 Open Scope string_scope.
 Open Scope Z_scope.
 
+(* ==== PRIMARY STATEMENTS: the code as it is now (all five repairs in place, [cfg_repaired];
+   the correspondence run determines each time that this is the variant the tree implements).
+   No guard: EVERY history of commands and snapshot-restarts. ================================= *)
+
+(* Restoring a snapshot reproduces exactly the state it was taken from. *)
+Theorem C22_restore_snapshot : forall h,
+  idx_incr 1 h -> hist_ok cfg_repaired no_guard empty_state h = true ->
+  restore (snapshot (run cfg_repaired empty_state h)) = run cfg_repaired empty_state h.
+Proof. exact (restore_repaired cfg_repaired eq_refl eq_refl). Qed.
+Print Assumptions C22_restore_snapshot.
+
+(* A node that restores the snapshot taken after any prefix and replays the rest ends in the
+   state of a node that applied the whole log. *)
+Theorem C22_prefix_replay : forall p q,
+  idx_incr 1 (p ++ q) -> hist_ok cfg_repaired no_guard empty_state (p ++ q) = true ->
+  run cfg_repaired (restore (snapshot (run cfg_repaired empty_state p))) q = run cfg_repaired empty_state (p ++ q).
+Proof. exact (prefix_replay_repaired cfg_repaired eq_refl eq_refl). Qed.
+Print Assumptions C22_prefix_replay.
+
+(* Every lookup index (filesByDB, tokens by prefix / name, the seven RBAC indexes) is the
+   function of its primary map that Restore computes. *)
+Theorem C22_indexes_agree : forall h,
+  idx_incr 1 h -> hist_ok cfg_repaired no_guard empty_state h = true ->
+  indexes_agree (run cfg_repaired empty_state h) = true.
+Proof. exact (indexes_repaired cfg_repaired eq_refl). Qed.
+Print Assumptions C22_indexes_agree.
+
+(* (C22_batch_atomic below is unguarded and holds for every variant.) *)
+
+(* ==== The variant-generic results (any combination of repaired / unrepaired functions): the
+   guards name exactly the command classes on which an UNREPAIRED function misbehaves. ======== *)
+
 (* Restoring a snapshot reproduces exactly the state it was taken from - for every history
    that contains no UpdateFile with an empty database and no UpdateToken to an invalid name. *)
 Theorem C22_restore_snapshot_guarded : forall c h,
